@@ -2,6 +2,7 @@ package generator
 
 import (
 	"fmt"
+	"os"
 	"sync"
 )
 
@@ -37,7 +38,7 @@ func HC20_concurrentFormat() {
 		if i > 0 {
 			vfAssume(formats[i-1] <= formats[i]) // the goroutines run the same code: requests are symmetric
 		}
-		files[i] = fmt.Sprint("file", i, ".out")
+		files[i] = fmt.Sprint("/tmp/vf_c20_file", i, ".out") // absolute: a native run must not write into /repo
 		fails[i] = vfBool(fmt.Sprint("runFails", i))
 		if tool, ok := c20Tools[formats[i]]; ok {
 			vfExecSet(tool, files[i], !fails[i])
@@ -58,6 +59,11 @@ func HC20_concurrentFormat() {
 	wg.Wait()
 
 	log := vfExecLog()
+	if !vfEngine() {
+		for _, f := range files {
+			os.Remove(f)
+		}
+	}
 	for _, fm := range []Format{Go, Dart, TypeScript, Psql} {
 		vfAssert(c20Count(log, c20Tools[fm]+"|") <= 1, "C20/each-tool-probed-at-most-once")
 	}
